@@ -27,6 +27,7 @@ def main():
             continue
         res = {"head": head}
         try:
+            (W / ".scratch").mkdir(exist_ok=True)
             shutil.copy(demo, W / demo.name)
             for extra in d.iterdir():
                 if extra.is_dir():
